@@ -52,12 +52,13 @@ Definition vi_encode_buf (k : vkind) (b : bbuf) (z : Z) : option errno * N * bbu
 
 Inductive vres := VOk (u : N) (count : N) | VIllegal | VShort.
 
-(* varint_decode: reads buf[offset+i], i < maxoctets, never beyond the unread region *)
+(* varint_decode: reads buf[offset+i], i < maxoctets, never beyond the buffer's memory [offset, size)
+   (the existing tests decode from buffers set up with byte_buffer_space, i.e. used = 0) *)
 Fixpoint vi_decode_loop (fuel : nat) (b : bbuf) (i : N) (acc : N) : vres :=
   match fuel with
   | O => VIllegal
   | S f =>
-      if bb_rest b <=? i then VShort else
+      if bb_size b - bb_offset b <=? i then VShort else
       match nth_error (bb_mem b) (N.to_nat (bb_offset b + i)) with
       | None => VShort      (* unreachable under bb_inv *)
       | Some d =>
